@@ -119,12 +119,12 @@ def enum_graphs(seed):
     thing = _cls()
     fails, cases = [], 0
 
-    def check(sources, label):
+    def check(sources, label, name="s"):
         nonlocal cases
         cases += 1
-        want = reference(sources, "s")
+        want = reference(sources, name)
         try:
-            got = run(sources, "s", thing)
+            got = run(sources, name, thing)
         except Exception as e:
             got = ("raised", f"{type(e).__name__}: {e}")
         if got[0] != want[0] or (got[0] == "ok" and got[1] != want[1]):
@@ -133,7 +133,7 @@ def enum_graphs(seed):
         if len(sources) > 1:
             cases += 1
             try:
-                got2 = run_incrementally(sources, "s", thing)
+                got2 = run_incrementally(sources, name, thing)
             except Exception as e:
                 got2 = ("raised", f"{type(e).__name__}: {e}")
             if got2[0] != want[0] or (got2[0] == "ok" and got2[1] != want[1]):
@@ -215,8 +215,22 @@ def enum_graphs(seed):
     check([dia(), {"d": {"k3": "newer d.k3", "inherit": ["d"]}}], "diamond whose bottom is redefined by a later source")
     check([dia(d={"k3": "d.k3", "inherit": ["c"]})], "a cycle entered through a section that was reached before: must be reported as an error")
     check([dia(d={"k3": "d.k3", "inherit": ["s"]})], "a cycle through the collapsed section below a diamond: must be reported as an error")
+    # section names as configuration files deliver them: strings made at run time, every mention of a name a string object of its own (equal, not
+    # identical) -- the same cyclic / dangling / diamond graphs again, and cycles that close on a section first named by somebody else
+    def runtime_names(sources):
+        nm = lambda n: "section-" + n          # a new string object at every call
+        return [{nm(k): {kk: ([nm(x) for x in vv] if kk == "inherit" else vv) for kk, vv in d.items()} for k, d in src.items()} for src in sources]
+    cross = [
+        [{"s": {"class": thing, "inherit": ["left", "right"]}, "left": {"k1": "l", "inherit": ["right"]}, "right": {"k2": "r", "inherit": ["left"]}}],
+        [{"s": {"class": thing, "inherit": ["a", "b"]}, "a": {"k1": "a", "inherit": ["c"]}, "b": {"k2": "b"}, "c": {"k3": "c", "inherit": ["b", "a"]}}],
+        [{"s": {"class": thing, "inherit": ["a"]}, "a": {"inherit": ["b"]}, "b": {"inherit": ["c"]}, "c": {"inherit": ["a"]}}],
+    ]
+    for b in cross:
+        check(b, "a cycle that closes on a section first named by another one: must be reported as an error")
+    for b in bad + cross + [[dia()], [dia(d={"k3": "d.k3", "inherit": ["c"]})], [dia(d={"k3": "d.k3", "inherit": ["s"]})], [dia(), {"d": {"k3": "newer d.k3", "inherit": ["d"]}}]]:
+        check(runtime_names(b), "section names made at run time (equal, not identical, strings)", name="section-" + "s")
     return {"name": "C43.collapse.bounded_enumeration", "bound": f"8 tree shapes over <= 5 sections (two ordered parents, two levels) x {120 if thorough else 40} seeded key assignments, each with one source, with a second source redefining a section and with further sources redefining the collapsed section "
-            "(self-inherit through the sources at any position among the bases), every multi-source case also with the sources added one by one and the section collapsed after each; 6 cyclic / dangling graphs, 5 diamond-shaped ones (two of them with a cycle below the join)", "cases": cases, "failures": fails}
+            "(self-inherit through the sources at any position among the bases), every multi-source case also with the sources added one by one and the section collapsed after each; 6 cyclic / dangling graphs, 3 cycles closing on a section first named by another one, 5 diamond-shaped ones (two of them with a cycle below the join), 13 of these again with section names that are run-time strings (equal but not identical objects)", "cases": cases, "failures": fails}
 
 
 def t_render_value(ex):
